@@ -51,7 +51,33 @@ func ruleRoleMirror(c *Ctx, r *Report) {
 			role, isC := constBool(a[3])
 			key := fmt.Sprintf("%s:Init(isClient=%v)", short(fn), a[3].Name())
 			if !isC {
-				r.Unk(rule, key, c.ipos(call), "isClient argument of CipherSuite.Init is not a constant at this site")
+				// the flag is the endpoint's own role: then, for either role, the randoms handed
+				// over on the paths of that role are the ones of that role
+				owner, fld, _, isLoad := fieldLoad(a[3])
+				if !isLoad || !strings.EqualFold(fld, "isClient") {
+					r.Unk(rule, key, c.ipos(call), "isClient argument of CipherSuite.Init is neither a constant nor the endpoint's role at this site")
+					continue
+				}
+				n++ // one site, both roles
+				for _, rl := range []bool{true, false} {
+					as := []atomAssume{{mLoad(owner, fld), vBool(rl)}}
+					fieldOf := func(arg ssa.Value) string {
+						var l []seg
+						var err *layoutErr
+						withAssume(as, func() { l, err = c.pathLayout(fn, as, arg, call, 0) })
+						if err != nil {
+							return "?" + err.msg
+						}
+						m := marshalFixedOfField.FindStringSubmatch(layoutString(l))
+						if m == nil || !strings.HasSuffix(layoutString(l), "[31..0]") || len(l) != 1 {
+							return "?" + layoutString(l)
+						}
+						return m[1]
+					}
+					cf, sf := fieldOf(a[1]), fieldOf(a[2])
+					ok := (rl && isLocal(cf) && isRemote(sf)) || (!rl && isRemote(cf) && isLocal(sf))
+					r.Check(ok, rule, fmt.Sprintf("%s:Init(isClient=role):%v", short(fn), rl), c.ipos(call), fmt.Sprintf("client_random=%s server_random=%s", cf, sf), fmt.Sprintf("key derivation on the paths where the endpoint's isClient is %v takes client_random from %q and server_random from %q: the two endpoints derive different keys (or the same endpoint mirrors itself)", rl, cf, sf))
+				}
 				continue
 			}
 			key = fmt.Sprintf("%s:Init(isClient=%v)", short(fn), role)
